@@ -43,7 +43,7 @@ def dkw_radius(n):
 
 def sizes(rng):
     k = rng.choice([1, 2, 3, 5, 17, 64])
-    return [None, k, (rng.choice([1, 2, 3]), rng.choice([1, 2, 4])), 0]
+    return [None, k, (rng.choice([1, 2, 3]), rng.choice([1, 2, 4])), 0, rng.choice([1, (1,), (1, 1), (k, 1), (0, 2)])]
 
 
 def expected_shape(size):
